@@ -46,7 +46,7 @@ def hexes(xs): return ' '.join(dhex(x) for x in xs)
 
 # the coordinator on the real BoxMuller generator, shared with other consumers (scripted drand48)
 GROUP_REAL = dict(name='simreal', sources=['h_simreal.cpp'], repo_sources=['mode.cpp', 'covariant.cpp', 'util/BoxMuller.C', 'util/Pauli.C', 'util/random.C', 'util/true_math.c'],
-                  driver=None, libs=(), replay_prefix=('o.c08.shared',))
+                  driver='simreal', libs=(), replay_prefix=('o.c08.shared', 'cov.shared'))
 
 
 def gen_real_c08(g, tier):
@@ -54,19 +54,29 @@ def gen_real_c08(g, tier):
     draws by a third party (x) up to length 5 on one configuration, then random long ones"""
     import itertools
     cs = []
-    def line(pat, b0, b1, frac):
+    def line(pat, b0, b1, frac, op='o.c08.shared'):
         ls0, ls1 = math.sqrt(math.log(b0 * b0 + 1)), math.sqrt(math.log(b1 * b1 + 1))
         lim = (math.exp(ls0 * ls1) - 1) / (b0 * b1) if frac >= 0 else -(math.exp(-ls0 * ls1) - 1) / (b0 * b1)
         rho = frac * lim
         need = 2 * len(pat)
         us = [g.r.uniform(0.001, 0.999) for _ in range(4 * need + 40)]
-        return 'o.c08.shared %s %s %s %s %s' % (dhex(rho), dhex(b0), dhex(b1), pat, hexes(us))
+        return '%s %s %s %s %s %s' % (op, dhex(rho), dhex(b0), dhex(b1), pat, hexes(us))
     maxlen = 5 if tier == 'quick' else 7
     for n in range(1, maxlen + 1):
         for tup in itertools.product('ABx', repeat=n):
             pat = ''.join(tup)
             if 'A' not in pat and 'B' not in pat: continue
             cs.append(Case(line(pat, 0.8, 1.3, 0.6), 'orc', 'shared-generator-exhaustive-%s' % ('odd-offset' if pat.split('A')[0].split('B')[0].count('x') % 2 else 'even-offset'), check=small_hex_check(1e-9)))
+    # the same scenario against the model (stream model composed with the coordinator model), bit for bit
+    for n in range(1, (4 if tier == 'quick' else 6) + 1):
+        for tup in itertools.product('ABx', repeat=n):
+            pat = ''.join(tup)
+            if 'A' not in pat and 'B' not in pat: continue
+            cs.append(Case(line(pat, 0.5, 2.0, -0.7, op='cov.shared'), 'cmp', 'shared-generator-model-exhaustive'))
+    for _ in range(40 if tier == 'quick' else 400):
+        pat = ''.join(g.choice('AABBx') for _ in range(g.r.randint(5, 60)))
+        if 'A' not in pat and 'B' not in pat: pat += 'B'
+        cs.append(Case(line(pat, 10 ** g.r.uniform(-1.5, 0.7), 10 ** g.r.uniform(-1.5, 0.7), g.r.uniform(-0.99, 0.99), op='cov.shared'), 'cmp', 'shared-generator-model-random'))
     for _ in range(60 if tier == 'quick' else 600):
         n = g.r.randint(6, 40)
         pat = ''.join(g.choice('AABBx') for _ in range(n))
